@@ -4,7 +4,7 @@ SPEC = {
     "level": "exploration",
     "units": [
         {"name": "dist", "pkg": PD, "kind": "rapid", "run": "^TestVerifC12Dist$",
-         "quick": {"checks": 1500, "shards": 2, "timeout": 300},
+         "quick": {"checks": 2500, "shards": 4, "timeout": 300},
          "thorough": {"checks": 20000, "shards": 12, "timeout": 1500}},
         {"name": "drbg", "pkg": PD, "kind": "rapid", "run": "^TestVerifC12Drbg$",
          "quick": {"checks": 1500, "shards": 1, "timeout": 300},
@@ -13,7 +13,7 @@ SPEC = {
          "quick": {"checks": 1000, "shards": 1, "timeout": 300},
          "thorough": {"checks": 20000, "shards": 4, "timeout": 1500}},
         {"name": "concurrent-reset", "pkg": PD, "kind": "rapid", "run": "^TestVerifC12ConcurrentReset$",
-         "quick": {"checks": 200, "shards": 1, "timeout": 300},
+         "quick": {"checks": 300, "shards": 2, "timeout": 300},
          "thorough": {"checks": 2000, "shards": 4, "timeout": 900, "race": True}},
     ],
 }
